@@ -158,8 +158,12 @@ UNIFORM_QUICK = ["SandyLoam", "Clay", "Sand", "Loam", "Paddy", "SiltClay"]
 LAYERED = [("Sand", "Clay"), ("Clay", "Sand"), ("PaddyTop", "PaddyPan"), ("SandyLoam", "TightClay")]
 
 
-def profile_catalogue(tier, n=2):
+def profile_catalogue(tier, n=2, heavy=False):
+    """heavy: harnesses with thousands of paths per configuration use a smaller quick catalogue"""
     out = []
+    if heavy and tier == "quick":
+        return [(["SandyLoam"] * n, [0.1] * n), (["Paddy"] * n, [0.1] * n), (["PaddyTop"] + ["PaddyPan"] * (n - 1), [0.1] * n),
+                (["SandyLoam"] + ["TightClay"] * (n - 1), [0.1] * n), (["Clay"] + ["Sand"] * (n - 1), [0.1] * n)]
     soils = UNIFORM_QUICK if tier == "quick" else BUILTIN_SOILS
     for s in soils:
         out.append(([s] * n, [0.1] * n))
